@@ -4,7 +4,7 @@
   core <EXPECTED> <flags> <tx> <idx> <spent> <oracle> → ok | err:<CLASS> (or ok | err when EXPECTED = FAIL)
   collect <flags> <tx> <idx> <spent> <oracle>         → the oracle queries still unanswered (`,`-joined) or -
   runtx / coretx <EXPECTED> / collecttx               → the same over every input of the transaction
-  runv <variant> … / par … / valtx …                  → as run / run / runtx (other ways of driving the Go engine)
+  runv <variant> … / par … / valtx … / multi …        → as run / run / runtx / runtx (other ways of driving the Go engine)
   classify <script>                                   → po= wp= p2sh= succ= p2a= p2tr= p2wpkh= p2wsh=
   sha1 | ripemd160 | sha256 | hash160 <hex>           → digest
   num <hex> <minimal 0|1> <maxlen>                    → value | err ;  numenc <int> → hex
@@ -67,6 +67,15 @@ def handleRun (fl tx idx spent oracle : String) : String :=
   | some fl, some sp => showResult false (sp.verify (Flags.ofNat fl))
   | _, _ => "bad-op"
 
+def handleTx (fl tx spent oracle : String) : String :=
+  match fl.toNat?, parseSpend tx "0" spent oracle with
+  | some fl, some sp =>
+    showResult false ((List.range sp.tx.ins.length).foldl
+      (fun acc i => match acc with
+        | .ok _ => ({ sp with idx := i } : Spend).verify (Flags.ofNat fl)
+        | e => e) (.ok ()))
+  | _, _ => "bad-op"
+
 def handle : List String → String
   | "expect" :: _ :: rest => handle rest
   | ["run", fl, tx, idx, spent, oracle] =>
@@ -108,6 +117,7 @@ def handle : List String → String
     | _, _ => "bad-op"
   | ["runv", _, fl, tx, idx, spent, oracle] => handleRun fl tx idx spent oracle
   | ["par", fl, tx, idx, spent, oracle] => handleRun fl tx idx spent oracle
+  | ["multi", fl, tx, _, spent, oracle] => handleTx fl tx spent oracle
   | ["valtx", fl, tx, _, spent, oracle] =>
     match fl.toNat?, parseSpend tx "0" spent oracle with
     | some fl, some sp =>
